@@ -79,7 +79,8 @@ class Env:
         fmt, cm = v['input_format'], v['compression_mode']
         path = self.files[(fmt, cm)]
         vals = {'graph_file_input': path, 'graph_list_of_files_input': [path], 'raw_graph': self.docs[fmt],
-                'url_graph_input': "http://localhost:9/g.nt", 'list_of_url_input': ["http://localhost:9/g.nt"],
+                # "remote" sources that work offline: file:// URLs of the uncompressed document in the chosen format
+                'url_graph_input': "file://" + self.files.get((fmt, None), "/nonexistent"), 'list_of_url_input': ["file://" + self.files.get((fmt, None), "/nonexistent")],
                 'url_endpoint': "http://localhost:9/sparql", 'rdflib_graph': self.graph,
                 'target_classes': [EX + "C"], 'file_target_classes': self.tc, 'shape_map_file': self.sm,
                 'shape_map_raw': "<http://example.org/a>@<http://example.org/S>"}
@@ -167,7 +168,7 @@ def real_init(env, v, call=False, empty=False):
             return "hang", None
         except Exception as e:
             return canon_exc(e), None
-        if not call or v['url_graph_input'] or v['list_of_url_input'] or v['url_endpoint']:
+        if not call or v['url_endpoint'] or ((v['url_graph_input'] or v['list_of_url_input']) and (fmt_of(v), None) not in env.files):
             return "ok", None
         try:
             sh.shex_graph(string_output=True)
@@ -179,6 +180,10 @@ def real_init(env, v, call=False, empty=False):
     finally:
         signal.alarm(0)
         signal.signal(signal.SIGALRM, old)
+
+
+def fmt_of(v):
+    return v['input_format']
 
 
 def canon_model(g):
